@@ -35,7 +35,55 @@ def rules(model: Model, tier: str) -> List[RuleResult]:
     _global_growth(model, G)
     E = RuleResult(PROP, "C19-E", "a caught exception is not bound to a name that outlives its handler", min_instances=1)
     _exception_binding(model, E)
-    return [R8, C, Rr, X, G, E]
+    Tk = RuleResult(PROP, "C19-T", "layout helpers (TensorPacker) keep shapes and offsets only, never the tensors they were built from", min_instances=1)
+    _layout_only(model, Tk)
+    return [R8, C, Rr, X, G, E, Tk]
+
+
+def _layout_only(model: Model, T: RuleResult):
+    """TensorPacker is created from live tensors (outputs of a Function, states of the adjoint sweep) and is captured by closures
+    that are themselves stored on autograd contexts.  If it retained those tensors, every such closure would keep them - and through
+    their grad_fn the whole graph - alive, closing a reference cycle.  It may store only metadata (shape, numel, offsets)."""
+    f = model.func("xitorch/_utils/misc.py", "TensorPacker.__init__")
+    src = f.params()[1]
+    derived = {src}
+    for n in own_nodes(f.node):
+        if isinstance(n, ast.For) and any(isinstance(x, ast.Name) and x.id in derived for x in ast.walk(n.iter)):
+            for x in ast.walk(n.target):
+                if isinstance(x, ast.Name):
+                    derived.add(x.id)
+
+    def leaks(e) -> bool:
+        """does evaluating e yield (a container of) the tensors themselves, as opposed to metadata?"""
+        if isinstance(e, ast.Name):
+            return e.id in derived
+        if isinstance(e, ast.Attribute):
+            return False if e.attr in ("shape", "dtype", "device", "ndim") else leaks(e.value)
+        if isinstance(e, ast.Call):
+            fn = ast.unparse(e.func)
+            if fn.split(".")[-1] in ("numel", "len", "size", "dim", "type"):
+                return False
+            return any(leaks(a) for a in e.args) or any(leaks(k.value) for k in e.keywords) or (isinstance(e.func, ast.Attribute) and leaks(e.func.value)
+                                                                                              and e.func.attr not in ("numel", "size", "dim"))
+        return any(leaks(c) for c in ast.iter_child_nodes(e) if isinstance(c, ast.expr))
+    n = 0
+    for s_ in own_nodes(f.node):
+        val = None
+        if isinstance(s_, ast.Assign) and any(isinstance(t, ast.Attribute) and isinstance(t.value, ast.Name) and t.value.id == f.params()[0] for t in s_.targets):
+            val = s_.value
+        elif isinstance(s_, ast.Expr) and isinstance(s_.value, ast.Call) and isinstance(s_.value.func, ast.Attribute) and s_.value.func.attr in ("append", "extend", "insert") \
+                and ast.unparse(s_.value.func.value).startswith(f.params()[0] + "."):
+            val = ast.Tuple(elts=list(s_.value.args), ctx=ast.Load())
+        if val is None:
+            continue
+        n += 1
+        if leaks(val):
+            T.bad(f, s_, "TensorPacker stores the tensors it was built from (`%s`): closures holding the packer then keep those tensors and their graph alive "
+                  "(reference cycle through the autograd context)" % norm_stmt(s_, 70))
+        else:
+            T.ok(f.fq, "stores metadata only: `%s`" % norm_stmt(s_, 70))
+    if n == 0:
+        raise AnalysisError("C19-T: TensorPacker.__init__ stores nothing")
 
 
 def _closure_values(v: ast.AST) -> List[ast.AST]:
